@@ -13,6 +13,7 @@ type Expr struct {
 	Op    string // = < >
 	Right Operand
 	Swap  bool // written with the operands exchanged (constant first): Right Op Left
+	Bare  bool // and / or: the left operand is written WITHOUT parentheses (A AND B; the grammar nests to the right)
 	// not / paren: A; and / or: (A) op B   (the left operand is always parenthesised)
 	A, B *Expr
 }
@@ -47,8 +48,14 @@ func (e *Expr) Render() string {
 	case "paren":
 		return "(" + e.A.Render() + ")"
 	case "and":
+		if e.Bare {
+			return e.A.Render() + " AND " + e.B.Render()
+		}
 		return "(" + e.A.Render() + ") AND " + e.B.Render()
 	case "or":
+		if e.Bare {
+			return e.A.Render() + " OR " + e.B.Render()
+		}
 		return "(" + e.A.Render() + ") OR " + e.B.Render()
 	}
 	return "?"
@@ -162,6 +169,18 @@ func Trees(atoms []*Expr, depth int) []*Expr {
 		}
 		all = append(all, next...)
 		level = next
+	}
+	if depth > 1 {
+		// the left operand written without parentheses (derivable; the expression builder may refuse it, but if it
+		// accepts it the whole expression counts), alone and under NOT, which applies to everything that follows
+		for _, a := range atoms {
+			for _, b := range atoms {
+				for _, k := range []string{"and", "or"} {
+					e := &Expr{Kind: k, A: a, B: b, Bare: true}
+					all = append(all, e, &Expr{Kind: "not", A: e})
+				}
+			}
+		}
 	}
 	return all
 }
